@@ -814,6 +814,11 @@ class Executor(object):
         if k1 == 'float' and k2 == 'float':
             return x
         if k1 == 'string' and k2 == 'slice':
+            if not isinstance(x, str):
+                # a formatted (symbolic) string: carried as one opaque token
+                oid = self.new_obj(st, [('strtok', x)])
+                self.alloc_epoch[oid] = self.nobj
+                return Slice(oid, (), 0, 1, 1)
             data = list(x.encode('utf-8'))
             oid = self.new_obj(st, data)
             self.alloc_epoch[oid] = self.nobj
